@@ -21,7 +21,7 @@ EXTENDS Naturals, Sequences, FiniteSets, TLC
 Methods   == {"GET", "PUT", "POST", "PATCH", "DELETE", "HEAD", "OPTIONS"}
 SegToks   == {"s1", "s2", "se"}            \* plain, with - . _ and digits, percent-escaped (denotes the decoded text)
 QKeys     == {"k1", "k2"}
-QVals     == {"v1", "ve", "e"}             \* plain, percent-escaped, empty
+QVals     == {"v1", "ve", "e", "vq"}       \* plain, percent-escaped, empty, with raw `=` signs inside (the pair is cut at the first one only)
 StdNames  == {"Host", "Accept", "CT"}      \* standard headers (CT = Content-Type)
 CustNames == {"XA", "XB"}                  \* custom headers
 \* every standard request header of the framework's table (minus the framing/connection ones), by registered name
@@ -63,7 +63,7 @@ HLines == {<<"Host", "canon", "v1">>, <<"Host", "lower", "v2">>, <<"Accept", "mi
 F(fams) == FAMILY = "all" \/ FAMILY \in fams
 Init == r = Empty
 
-Method(m)   == r.phase = "method" /\ (F({"target"}) \/ m \in {"GET", "POST"}) /\ (FAMILY = "body" => m \in {"POST", "PUT"}) /\ r' = [r EXCEPT !.method = m, !.phase = "target"]
+Method(m)   == r.phase = "method" /\ (F({"target"}) \/ m \in {"GET", "POST"}) /\ (FAMILY = "body" => m \in {"POST", "PUT", "GET", "HEAD"}) /\ r' = [r EXCEPT !.method = m, !.phase = "target"]
 Seg(s)      == r.phase = "target" /\ Len(r.segs) < MaxSegs /\ (F({"target"}) \/ (s = "s1" /\ r.segs = <<>>)) /\ ~r.trailing /\ r' = [r EXCEPT !.segs = Append(@, s)]
 Trailing    == r.phase = "target" /\ F({"target"}) /\ r.segs # <<>> /\ ~r.trailing /\ r' = [r EXCEPT !.trailing = TRUE]
 QMark       == r.phase = "target" /\ F({"target", "faults", "delivery"}) /\ r' = [r EXCEPT !.phase = "query", !.hasq = TRUE]
@@ -74,8 +74,8 @@ HeaderLine(n, c, v) == /\ r.phase = "headers" /\ Len(r.headers) < MaxHeaders
                           ELSE /\ <<n, c, v>> \in HLines
                                /\ (F({"headers"}) \/ (Len(r.headers) < 2 /\ <<n, c, v>> \in {<<"Host", "canon", "v1">>, <<"XB", "mixed", "vl">>}))
                        /\ r' = [r EXCEPT !.headers = Append(@, [n |-> n, c |-> c, v |-> v])]
-\* the Content-Length line and the payload it announces (only POST/PUT/PATCH/DELETE carry one here)
-Body(sz, f, z, c) == /\ r.phase = "headers" /\ r.method \in {"POST", "PUT", "PATCH", "DELETE"}
+\* the Content-Length line and the payload it announces (any method may carry one: the text makes the body depend on Content-Length only)
+Body(sz, f, z, c) == /\ r.phase = "headers"
                      /\ (F({"body"}) \/ (FAMILY \in {"faults", "delivery"} /\ sz \in {"small", "over"} /\ f = "N" /\ ~z /\ c = "canon"))
                      /\ r' = [r EXCEPT !.body = [size |-> sz, first |-> f, nul |-> z, clcase |-> c], !.phase = "done"]
 EndOfHead   == r.phase = "headers" /\ r' = [r EXCEPT !.phase = "done"]
